@@ -60,6 +60,11 @@ def requests(tier, rng):
         for _ in range(40):
             hi = rng.randrange(-B // 2**32, B // 2**32)
             L.append("%s %d" % (fn, hi * 2**32 + lowpat))
+    for i in range(1, 55):      # windows around +-2^i inside the domain
+        for sg in (1, -1):
+            c = sg * 2**i
+            if abs(c) + 300 < B:
+                L.append("sweep %s %d %d %d" % (fn, c - 300, c + 300, 600))
     nwin = 2000 if tier == "quick" else 100000
     for _ in range(nwin):
         base = rng.randrange(-B + 1, B - 1000)
